@@ -226,7 +226,7 @@ func c06One(c *mc.Ctx, k c06Case) (encoded bool) {
 		twice := append(append(make([]byte, 0, 2*len(all)), all...), all...)
 		var r bufiox.Reader
 		if k.Stream {
-			r = bufiox.NewDefaultReader(NewEnvReader(twice, k.Env))
+			r = bufiox.NewDefaultReader(NewEnvReader(twice, k.Env).Src())
 		} else {
 			r = bufiox.NewBytesReader(twice)
 		}
